@@ -210,29 +210,47 @@ func TestVerif_C12Queue(t *testing.T) {
 		}
 		nMsg := 3 + r.intn(10)
 		var ids []string
-		for m := 0; m < nMsg; m++ {
+		stuck := false
+		for m := 0; m < nMsg && !stuck; m++ {
 			meta := &module.MsgMetadata{ID: fmt.Sprintf("m%d-%d", ci, m)}
-			d, err := q.Start(ctx, meta, "sender@example.org")
-			if err != nil {
-				t.Fatal(err)
-			}
-			d.AddRcpt(ctx, "rcpt@example.net", smtp.RcptOptions{})
-			hdr := textproto.Header{}
-			hdr.Add("Subject", "x")
-			d.Body(ctx, hdr, buffer.MemoryBuffer{Slice: []byte("hi\r\n")})
-			if err := d.Commit(ctx); err != nil {
-				t.Fatal(err)
+			enq := make(chan error, 1)
+			go func() {
+				d, err := q.Start(ctx, meta, "sender@example.org")
+				if err != nil {
+					enq <- err
+					return
+				}
+				d.AddRcpt(ctx, "rcpt@example.net", smtp.RcptOptions{})
+				hdr := textproto.Header{}
+				hdr.Add("Subject", "x")
+				d.Body(ctx, hdr, buffer.MemoryBuffer{Slice: []byte("hi\r\n")})
+				enq <- d.Commit(ctx)
+			}()
+			select {
+			case err := <-enq:
+				if err != nil {
+					t.Fatal(err)
+				}
+			case <-time.After(3 * time.Second):
+				stuck = true // the enqueue hangs
 			}
 			ids = append(ids, meta.ID)
+		}
+		if stuck {
+			out.Case(fmt.Sprintf("CQueue %s %s %s %s %s", cN(0), cN(0), cN(0), cN(0), cBool(true)))
+			continue // the queue is wedged; its goroutines are abandoned
 		}
 		time.Sleep(time.Duration(r.intn(3000)) * time.Microsecond)
 		closed := make(chan struct{})
 		go func() { q.Close(); tgt.closeReturned.Store(true); close(closed) }()
-		stuck := false
 		select {
 		case <-closed:
 		case <-time.After(5 * time.Second):
 			stuck = true
+		}
+		if stuck {
+			out.Case(fmt.Sprintf("CQueue %s %s %s %s %s", cN(0), cN(0), cN(0), cN(0), cBool(true)))
+			continue
 		}
 		runningAfter := int(tgt.running.Load())
 		time.Sleep(3 * time.Millisecond)
